@@ -414,11 +414,13 @@ def _wrapped_atom_on_edge(atoms, thicknesses, band=1e-9):
     for t in thicknesses:
         edges.append(edges[-1] + Fraction(float(t)))
     for z in atoms.positions[:, 2]:
-        if 0.0 <= z < float(height):
-            continue
         zf = Fraction(float(z)) % height
-        if any(abs(zf - e) < Fraction(band) for e in edges):
-            return True
+        inside = 0.0 <= z < float(height)
+        for e in edges:
+            if abs(zf - e) < Fraction(band) and not (inside and zf == e and float(e) == float(z) and float(z).is_integer()):
+                # within rounding distance of a slice boundary: ase's wrap (solve + matmul in floating point, rounding
+                # depends on how many atoms are wrapped together) can move the atom by an ulp across the boundary
+                return True
     return False
 
 
@@ -449,12 +451,12 @@ def check_add(ctx, case):
             sizes.append(len(idx))
             parts.append(_build(sub, case, st, sigmas=_own_sigmas(case, sub))[1])
     if case["projection"] == "finite" and _wrapped_atom_on_edge(atoms, tuple(whole.slice_thickness)):
-        # An atom OUTSIDE the cell whose periodic image lies (in exact arithmetic) on a slice boundary: the wrap is done
+        # An atom whose (periodic image's) height lies within rounding distance of a slice boundary: the wrap is done
         # in floating point (ase: fractional coordinates through a linear solve whose rounding depends on how many atoms
         # are wrapped together), so the image lands 1e-15 above or below the boundary and the finite-projection
         # integrators assign its non-Gaussian core to one slice or the other.  Which slice is right is undecidable at
         # that precision and the statement does not fix it; union and parts can legitimately disagree.  Not judged.
-        ctx.note("unjudged-wrapped-atom-on-slice-boundary")
+        ctx.note("unjudged-finite-additivity-atom-within-rounding-of-slice-boundary")
         ctx.nontrivial(False)
         return
     w = np.asarray(whole.array, dtype=np.float64)
